@@ -3225,8 +3225,8 @@ class RegexMatch(Match):
             count = int(token.value)
         except ValueError:
             count = None
-        if count is None or count > self.MAX_REPEAT_COUNT:
-            raise IllegalParseTree(f"Repeat count is too large (at most {self.MAX_REPEAT_COUNT})", token)
+        if count is None or not (0 <= count <= self.MAX_REPEAT_COUNT):
+            raise IllegalParseTree(f"Repeat count must be between 0 and {self.MAX_REPEAT_COUNT}", token)
         return count
 
     def _convert_raw_regex_unimportant(self, regex_tree: lark.Token):
